@@ -333,6 +333,9 @@ def _cfgs(tier):
                     'bound': None if n == 1 else 1})
     # three iterators (sequential passes with every release order; mid-pass switches in thorough)
     for cache in (True, False):
+        if quick and cache:
+            out.append({'op': 'sort', 'n': 1, 'b': 1, 'cache': True, 'fail': None, 'k': 3, 'warm': 'cold',
+                        'bound': 0})
         if not quick:
             out.append({'op': 'sort', 'n': 1, 'b': 1, 'cache': cache, 'fail': None, 'k': 3, 'warm': 'cold',
                         'bound': 1})
@@ -352,6 +355,17 @@ def _cfgs(tier):
         if not quick:
             out.append({'op': name, 'n': 2, 'b': 1, 'cache': True, 'fail': None, 'k': 2, 'warm': 'afterfull',
                         'bound': 1, 'cfgdefault': False})
+        if name.startswith('fromdicts'):
+            # spill file created but never (or hardly) filled: empty generator, failure at the first dict
+            for n in (0, 1):
+                for fail in [None] + list(range(1, n + 2)):
+                    if name == 'fromdicts(gen)' and (n == 0 or fail == 1):
+                        continue    # no dict is ever seen: the header cannot be discovered (undocumented)
+                    out.append({'op': name, 'n': n, 'b': 1, 'cache': True, 'fail': fail, 'k': 2, 'warm': 'cold',
+                                'bound': None, 'cfgdefault': False})
+            if name != 'fromdicts(gen)':
+                out.append({'op': name, 'n': 2, 'b': 1, 'cache': True, 'fail': 1, 'k': 2, 'warm': 'cold',
+                            'bound': 0 if quick else 1, 'cfgdefault': False})
     return out
 
 
